@@ -330,16 +330,19 @@ func (db *DB) OpenTransaction() (*Transaction, error) {
 	// Flush current memdb.
 	if db.mem != nil && db.mem.Len() != 0 {
 		if _, err := db.rotateMem(0, true); err != nil {
+			<-db.writeLockC
 			return nil, err
 		}
 	} else if err := db.compTriggerWait(db.mcompCmdC); err != nil {
 		// A frozen memdb may still be flushing; the transaction's tables
 		// must not be committed ahead of it.
+		<-db.writeLockC
 		return nil, err
 	}
 
 	// Wait compaction when certain threshold reached.
 	if err := db.waitCompaction(); err != nil {
+		<-db.writeLockC
 		return nil, err
 	}
 
